@@ -234,7 +234,8 @@ func genTextLiteral(r *hx.Rand, cfg genCfg) string {
 }
 
 func genNumber(r *hx.Rand) string {
-	return hx.Pick(r, []string{"0", "1", "2", "3", "7", "10", "12", "007", "00", "1.5", "1.50", "0.0", "2.0", "10.010", "0.5", "3.14159", "100", "1.0"})
+	return hx.Pick(r, []string{"0", "1", "2", "3", "7", "10", "12", "007", "00", "1.5", "1.50", "0.0", "2.0", "10.010", "0.5", "3.14159", "100", "1.0",
+		"1000", "12345.678", "1000000", "0.000001", "123456789012345678901234567890", "0.10"})
 }
 
 func genSmallInt(r *hx.Rand) string { return hx.Pick(r, []string{"0", "1", "2", "3"}) }
